@@ -389,6 +389,7 @@ func runPlan(it *item, port int) *result {
 	for _, t := range tasks {
 		_, _ = r.env.CDC.Delete(&request.DeleteRequest{TaskID: r.real[t], IgnoreNotFound: true})
 	}
+	lifeenv.ResetGauge(reals) // the gauges are process-wide: leave nothing of this plan to the next one
 	busy := false
 	if len(events) > 0 {
 		if c, _ := events[len(events)-1]["cpu"].(int); c > 40 {
@@ -473,7 +474,7 @@ type obs struct {
 	reg, rpc, sub          map[string]int
 	seekok                 map[string]bool
 	gl, ge, gp, gw         map[string]int
-	gu, gup                int
+	gu, gup, asleep        int
 	classes                []string
 }
 
@@ -489,6 +490,9 @@ func (r *runner) snapshot() *obs {
 			continue
 		}
 		o.classes = append(o.classes, fmt.Sprintf("%s:%s:%d", g.Task, g.Class, g.Count))
+		if g.Poller && g.Asleep {
+			o.asleep += g.Count // a poller inside time.Sleep cannot go away during the wait
+		}
 		if g.Task != "t1" && g.Task != "t2" { // started by ReloadTask (label "reload")
 			if g.Waiter {
 				continue
@@ -591,13 +595,18 @@ func (r *runner) residue(o *obs) string {
 			res = append(res, fmt.Sprintf("%s left %d %d %d %d", t, o.reg[t], o.rpc[t], o.sub[t], o.gl[t]))
 		}
 	}
+	left := 0
 	for _, t := range tasks {
-		if !running[r.tgt(t)] && o.ge[t]-o.gp[t] > 0 {
-			res = append(res, fmt.Sprintf("%s entity goroutines %d", t, o.ge[t]-o.gp[t]))
+		if !running[r.tgt(t)] {
+			left += o.ge[t]
 		}
 	}
-	if len(running) == 0 && o.gu-o.gup > 0 {
-		res = append(res, fmt.Sprintf("reload goroutines %d", o.gu-o.gup))
+	if len(running) == 0 {
+		left += o.gu
+	}
+	// pollers that are inside time.Sleep stay at least until their timer fires: not worth waiting for
+	if left-o.asleep > 0 {
+		res = append(res, fmt.Sprintf("entity goroutines %d", left-o.asleep))
 	}
 	return strings.Join(res, "; ")
 }
